@@ -175,6 +175,7 @@ type loopInfo struct {
 	entryHeap Heap
 	phiEntry  map[ssa.Value][]string
 	variant0  string
+	nondec0   []string // values of the `nondecreasing` expressions at the loop head
 	autoRange bool
 }
 
